@@ -70,7 +70,7 @@ CFG = {
             "between scan and delete, between deletes) or after the FIRST STORAGE COMMAND of the scan (between the index read and the record fetch), retention boundary at +0/+256/+512ns; compared: repository calls, results, keyspace; "
             "oracle: an independent bookkeeping simulator (exists / last refresh / last write per address; address / last write per instance) for listings, "
             "server removals, instance removals (the final instance table, and keepalives succeed iff instance and server are still stored), and "
-            "'the refreshed server survives, the stale ones are removed' for races",
+            "'the refreshed server survives, the stale ones are removed' for races (a refresh that found the server already removed - err:notfound - is accepted only with the server gone; any other or unparsable result fails); (fault) a storage fault at one removal: at most one outdated server per fault survives, every survivor is one of the OUTDATED planted servers, no fresh one is removed",
     "assumptions": [
         "each repository call is atomic at its commit (C09); the race is generated at call granularity",
         "refreshedAt <= updatedAt for every stored record is now a theorem (refLeUpd_preserved: invariant of every use case run at a clock value not before any stored update time, i.e. on a monotone clock; a backward clock step breaks it — witness in Properties/C14.lean); it is still checked on every dump by the correspondence (UP >= RF)",
